@@ -76,11 +76,14 @@ func vHarness_C02_joinprefix() {
 	if vParam("flagb") == 1 {
 		b.attr.ambiguousValue = true // b is itself the result of an earlier join
 	}
+	if vParam("flaga") == 1 {
+		a.attr.ambiguousValue = true // so is a (nested branches in the first list)
+	}
 	j := join(a, b, nil, "if")
 	if j.state == stateError {
 		return
 	}
-	differ := va != vb || vParam("flagb") == 1
+	differ := va != vb || vParam("flagb") == 1 || vParam("flaga") == 1
 	if !differ {
 		return
 	}
